@@ -96,6 +96,12 @@ def _alt_payload(r: Rec):
     return None
 
 
+def _is_default_rec(r: Rec) -> bool:
+    if r.wt == wire.VARINT:
+        return r.payload == 0
+    return not any(r.payload)
+
+
 def _sel(recs):
     """(index, record) pairs the per-record operators are applied to: every record of an ordinary
     message; first, second, middle and last of a size-boundary value with dozens of records."""
@@ -254,6 +260,19 @@ def rewrites_once(schema: Schema, m: Optional[Msg], recs: List[Rec], max_full: i
                 inner = wire.tokenize(r.payload)
             except wire.WireError:
                 continue
+            if f.card == "map" or f.base in ("timestamp", "duration", "wrap"):
+                # the inner message has implicit-presence fields only: a field holding its default
+                # may be left out, and a missing field may be spelled out with its default
+                for j, ir in enumerate(inner):
+                    if _is_default_rec(ir) and ir.number in (1, 2):
+                        yield "nested:drop-default-field", recs[:i] + [wire.make_rec(r.number, wire.LEN, wire.join(inner[:j] + inner[j + 1:]))] + recs[i + 1:]
+                present = {ir.number for ir in inner}
+                for g in inner_m.fields:
+                    if g.number not in present and g.base != "msg" and g.base not in ("timestamp", "duration", "wrap"):
+                        wt_g = elem_wt(g.kind)
+                        dflt = 0 if wt_g == wire.VARINT else b"" if wt_g == wire.LEN else b"\0" * (4 if wt_g == wire.FIXED32 else 8)
+                        add = wire.make_rec(g.number, wt_g, dflt)
+                        yield "nested:explicit-default-field", recs[:i] + [wire.make_rec(r.number, wire.LEN, wire.join([add] + inner))] + recs[i + 1:]
             for name, rw in rewrites_once(schema, inner_m, inner, max_full, depth + 1):
                 if name.startswith("unknown") and f.card == "map":
                     pass
